@@ -7,7 +7,7 @@
    (3) load (so_bytes (save_core XStream d)) = reloaded_stream d for every savable_core document outside the known class: the objects,
        plus the cross-reference stream object itself (number max_id + 1), max_id + 1. *)
 From LV Require Import Base.Bytes Base.Sx Model.Obj Model.Writer Model.Parser Model.Save Model.Xref Model.Loader
-  Model.Utf Gen.Lex Gen.SaveFmt Proofs.LexProofs Proofs.RealProofs Proofs.ObjectRtProofs Proofs.SaveProofs
+  Model.LoaderEnc Proofs.LoaderEncProofs Model.Utf Gen.Lex Gen.SaveFmt Proofs.LexProofs Proofs.RealProofs Proofs.ObjectRtProofs Proofs.SaveProofs
   Proofs.FilterProofsDict Spec.SaveSpec Spec.XrefSpec Proofs.XrefProofs Proofs.LoadProofs Proofs.LoadProofsFile
   Proofs.LoadProofsXref Proofs.LoadProofsTable.
 
@@ -394,14 +394,17 @@ Qed.
 
 
 
-Lemma save_stream_ok d : savable_core d -> so_status (save_core XStream d) = SaveOk.
+Lemma save_stream_ok_enc d : savable_core_enc d -> so_status (save_core XStream d) = SaveOk.
 Proof.
-  intro S. unfold save_core. pose proof (sv_max_id d S) as Hm.
+  intro S. unfold save_core. pose proof (se_max_id d S) as Hm.
   replace (u32_top <=? d_max_id d) with false by (symmetry; apply N.leb_gt; unfold u32_top, u32_mod in *; lia).
-  rewrite (sv_mark d S). cbn [negb]. destruct (save_body d) as [[b xs] x].
+  rewrite (se_mark d S). cbn [negb]. destruct (save_body d) as [[b xs] x].
   replace (u32_top <=? d_max_id d + 1) with false by (symmetry; apply N.leb_gt; unfold u32_top, u32_mod in *; lia).
   destruct (xstream_parts d x (xs mod u32_mod)) as [[t c] x1]. reflexivity.
 Qed.
+
+Lemma save_stream_ok d : savable_core d -> so_status (save_core XStream d) = SaveOk.
+Proof. intro S. apply save_stream_ok_enc. apply core_enc. exact S. Qed.
 
 Lemma digit_not_x c : is_dec_digit c = true -> byte_eqb x78 c = false.
 Proof.
@@ -448,10 +451,10 @@ Proof.
 Qed.
 
 
-(* facts about the stream dictionary of a savable_core document *)
+(* facts about the stream dictionary of a savable_core_enc document (with or without an Encrypt entry) *)
 Section StreamDict.
   Variable d : doc.
-  Hypothesis S : savable_core d.
+  Hypothesis S : savable_core_enc d.
   Hypothesis K : known_deep d = false.
   Variable secs : list xsection.
   Variable len : nat.
@@ -461,12 +464,12 @@ Section StreamDict.
   Let t6 := xs_trailer (d_trailer d) (Z.of_N (d_max_id d + 1 + 1)) (xstream_index secs) (Z.of_nat len).
 
   Lemma trailer_dict_wf : dict_wf (d_trailer d).
-  Proof. pose proof (sv_trailer d S) as Hw. inversion Hw; subst. assumption. Qed.
+  Proof. pose proof (se_trailer d S) as Hw. inversion Hw; subst. assumption. Qed.
 
   Lemma t6_wf : obj_wf (ODict t6).
   Proof.
-    pose proof (sv_trailer d S) as Hw. inversion Hw as [| | | | | | |tr Hnd Hf|]; subst.
-    pose proof (sv_max_id d S) as Hm.
+    pose proof (se_trailer d S) as Hw. inversion Hw as [| | | | | | |tr Hnd Hf|]; subst.
+    pose proof (se_max_id d S) as Hm.
     destruct (ints_props _ (index_ints secs Hsecs)) as [I1 _].
     constructor; [apply xs_trailer_wf; exact Hnd|].
     apply (xs_trailer_forall obj_wf); try assumption.
@@ -510,18 +513,36 @@ Section StreamDict.
 End StreamDict.
 
 
-Theorem load_save_stream d :
-  savable_core d -> known_deep d = false -> small_file_core XStream d ->
-  load (so_bytes (save_core XStream d)) = LOk (reloaded_stream d) XTStream.
+(* [front_save_stream]: the reader's front on the bytes save wrote in the stream format, and the objects its table leads
+   to (the cross-reference stream object last) -- with or without an Encrypt entry; [load_save_stream] (no Encrypt:
+   Loader.load) and the theorems about LoaderEnc.load_encx in Proofs/LoadProofsFull.v follow from it. *)
+Definition stream_xref (x1 : Save.xmap) (size : N) : xref :=
+  {| x_type := XTStream; x_entries := conv_map x1; x_size := i64_as_u32 (Z.of_N size) |}.
+
+Theorem front_save_stream d :
+  savable_core_enc d -> known_deep d = false -> small_file_core XStream d ->
+  exists x1 : Save.xmap,
+    load_front (so_bytes (save_core XStream d)) =
+      SOk {| f_buf := so_bytes (save_core XStream d); f_version := d_version d; f_mark := d_binary_mark d;
+             f_xref := stream_xref x1 (d_max_id d + 1 + 1); f_trailer := d_trailer (reloaded_stream d) |} /\
+    xref_max_id (stream_xref x1 (d_max_id d + 1 + 1)) = d_max_id d + 1 /\
+    Forall normal_ok x1 /\
+    read_entries (so_bytes (save_core XStream d)) (conv_map x1) [] = SOk (d_objects (reloaded_stream d)) /\
+    (forall k, dict_get (d_trailer (reloaded_stream d)) k =
+               if bytes_eqb k Xref.K_Index || bytes_eqb k Xref.K_W || bytes_eqb k K_Length then None
+               else if bytes_eqb k K_Filter then None
+               else if bytes_eqb k Save.K_Size then Some (OInt (Z.of_N (d_max_id d + 1 + 1)))
+               else if bytes_eqb k K_Type then Some (OName K_XRef)
+               else option_map norm_obj (dict_get (d_trailer d) k)).
 Proof.
   intros S K Hsmall.
-  pose proof (save_stream_ok d S) as Hok.
+  pose proof (save_stream_ok_enc d S) as Hok.
   destruct (save_core_shape XStream d Hok) as [mid [Hbytes Hmid]]. cbv zeta in Hmid.
-  pose proof (sv_max_id d S) as Hmax.
+  pose proof (se_max_id d S) as Hmax.
   set (v := d_version d). set (m := d_binary_mark d). set (objs := d_objects d).
   set (HM := header_bytes d ++ mark_bytes d).
-  assert (Hobjs : Forall obj_ok objs) by (apply savable_objs_ok; assumption).
-  assert (Hinc : increasing 0 (obj_numbers objs)) by (apply (sv_numbers d S)).
+  assert (Hobjs : Forall obj_ok objs) by (apply savable_objs_ok_enc; assumption).
+  assert (Hinc : increasing 0 (obj_numbers objs)) by (apply (se_numbers d S)).
   assert (Ebody : body_of d = HM ++ objs_bytes objs).
   { unfold body_of. rewrite save_body_eq. cbv zeta. cbn [fst]. fold HM. fold objs. rewrite write_objects_bytes. reflexivity. }
   assert (Ex : xmap_of d = entries_of (Save.blen HM) objs).
@@ -537,12 +558,12 @@ Proof.
   { rewrite Hn_len. unfold Loader.blen in *. rewrite app_length in Hsm. lia. }
   assert (Hnmod : n mod u32_mod = n) by (apply N.mod_small; exact Hn).
   (* the parts of the stream object *)
-  unfold reloaded_stream, xstream_obj, xstream_of. fold n. fold new_id. fold v m objs.
+  unfold reloaded_stream, xstream_obj, xstream_of. cbn [d_trailer d_objects]. fold n. fold new_id. fold v m objs.
   rewrite Hnmod in *. rewrite Ex in *.
   set (x := entries_of (Save.blen HM) objs) in *.
   rewrite xstream_parts_eq in *. cbv zeta in *. cbn [fst snd] in *. fold new_id in Hmid |- *.
   destruct (entries_of_props objs (Save.blen HM) 0 new_id Hobjs Hinc) as [Hxi [Hxb Hxn]].
-  { pose proof (sv_objects d S) as Ho. eapply Forall_impl; [|exact Ho]. intros io [H1 _]. unfold new_id. lia. }
+  { pose proof (se_objects d S) as Ho. eapply Forall_impl; [|exact Ho]. intros io [H1 _]. unfold new_id. lia. }
   fold x in Hxi, Hxb, Hxn. replace (0 + 1) with 1 in Hxi by lia.
   assert (Ex1 : Save.xinsert x new_id (Save.XNormal n 0) = x ++ [(new_id, Save.XNormal n 0)]).
   { apply save_xinsert_last. exact Hxb. }
@@ -583,80 +604,77 @@ Proof.
     repeat (rewrite <- app_assoc; cbn [app]). reflexivity. }
   assert (E2 : file = (body_of d ++ mid) ++ sx) by (unfold file; rewrite <- !app_assoc; reflexivity).
   assert (E3 : file = HM ++ objs_bytes objs ++ (mid ++ sx)) by (unfold file; rewrite Ebody, <- !app_assoc; reflexivity).
-  unfold load.
-  assert (Hoff : pdf_offset file = 0) by (rewrite E1; apply pdf_offset_header).
-  rewrite Hoff, from_0.
-  assert (Hhead : header file = Some v).
-  { rewrite E1. apply header_rt; [apply (sv_version_eol d S) | apply (sv_version_utf8 d S)]. }
-  rewrite Hhead.
-  assert (Hmark : read_binary_mark file = m).
-  { rewrite E1. apply binary_mark_rt; [apply (sv_version_eol d S) | apply (sv_mark d S)]. }
-  rewrite Hmark.
-  assert (Hstart : get_xref_start file = Some n).
-  { rewrite E2. apply get_xref_start_rt.
-    - rewrite Hn_len. unfold Loader.blen. rewrite app_length. lia.
-    - unfold Loader.blen. rewrite app_length. rewrite Hmid. pose proof (wio_stream_length new_id 0 t6 content). lia.
-    - unfold u32_mod in *. change (10 ^ 14) with 100000000000000. lia. }
-  rewrite Hstart.
-  (* the cross-reference stream *)
   assert (Hio : indirect_object (from n file) None = IOk (new_id, 0) (OStream (norm_dict t6) content)).
   { rewrite Hn_len. unfold file. rewrite from_app. rewrite Hmid.
     apply (indirect_object_rt new_id 0 (OStream t6 content) sx); try assumption.
     - unfold u32_max, new_id, u32_mod in *. lia.
     - unfold u16_max. lia. }
   assert (Hgn : forall k, dict_get (norm_dict t6) k = option_map norm_obj (dict_get t6 k)) by (intro; apply dict_get_norm).
-  assert (Hidx : norm_obj (xstream_index secs) = xstream_index secs).
-  { destruct (ints_props _ (index_ints secs Hsecs)) as [_ [I2 _]]. exact I2. }
-  assert (Hxt : xref_and_trailer file n =
-                SOk ({| x_type := XTStream; x_entries := conv_map x1; x_size := i64_as_u32 (Z.of_N (new_id + 1)) |},
-                     sr3 (norm_dict t6))).
-  { unfold xref_and_trailer.
-    assert (Etab : xref_and_trailer_table (from n file) = XNoMatch).
-    { rewrite Hn_len. unfold file. rewrite from_app. rewrite Hmid, wio_eq. rewrite <- app_assoc.
-      unfold xref_and_trailer_table. rewrite xref_table_number. reflexivity. }
-    rewrite Etab, Hio.
-    replace (dict_has (norm_dict t6) K_Filter) with false
-      by (unfold dict_has; rewrite Hgn, Hget; reflexivity).
-    unfold content, secs.
-    rewrite (xref_stream_roundtrip x1 new_id (norm_dict t6) (Z.of_N (new_id + 1))); try assumption.
-    - reflexivity.
-    - change Xref.K_Size with Save.K_Size. rewrite Hgn, Hget. reflexivity.
-    - change Xref.K_W with Save.K_W. rewrite Hgn, Hget. reflexivity.
-    - change Xref.K_Index with Save.K_Index. fold secs.
-      transitivity (option_map norm_obj (Some (xstream_index secs))); [rewrite Hgn, Hget; reflexivity|].
-      cbn [option_map]. rewrite Hidx. reflexivity. }
-  rewrite Hxt.
-  (* Prev, size, Encrypt *)
   assert (Hsr3 : forall k, dict_get (sr3 (norm_dict t6)) k =
                            if bytes_eqb k Xref.K_Index || bytes_eqb k Xref.K_W || bytes_eqb k K_Length then None
                            else option_map norm_obj (dict_get t6 k)).
   { intro k. rewrite sr3_get by exact Hdw. rewrite Hgn. reflexivity. }
-  assert (Hprev : dict_get (sr3 (norm_dict t6)) Xref.K_Prev = None).
-  { rewrite Hsr3, Hget. cbn [bytes_eqb orb]. change Xref.K_Prev with Save.K_Prev.
-    rewrite (dict_has_false_get _ _ (sv_no_prev d S)). reflexivity. }
-  rewrite Hprev.
-  assert (Hsr : dict_swap_remove (sr3 (norm_dict t6)) Xref.K_Prev = sr3 (norm_dict t6)).
-  { unfold dict_swap_remove at 1, dict_has. rewrite Hprev. reflexivity. }
-  rewrite Hsr. cbn [prev_loop].
   assert (Hlast : last_number objs <= d_max_id d).
-  { unfold last_number. apply fold_max_le; [lia|]. pose proof (sv_objects d S) as Ho.
+  { unfold last_number. apply fold_max_le; [lia|]. pose proof (se_objects d S) as Ho.
     eapply Forall_impl; [|exact Ho]. intros io [H1 _]. exact H1. }
-  assert (Hmaxid : xref_max_id {| x_type := XTStream; x_entries := conv_map x1; x_size := i64_as_u32 (Z.of_N (new_id + 1)) |} = new_id).
-  { unfold xref_max_id. cbn [x_entries]. unfold x1, conv_map. rewrite map_app, fold_left_app.
+  assert (Hmaxid : xref_max_id (stream_xref x1 (new_id + 1)) = new_id).
+  { unfold xref_max_id, stream_xref. cbn [x_entries]. unfold x1, conv_map. rewrite map_app, fold_left_app.
     fold (conv_map x). unfold x. rewrite max_id_fold by exact Hobjs.
     fold (last_number objs). cbn [map fold_left]. unfold conv_entry. cbn [fst]. apply N.max_r. eapply N.le_trans; [exact Hlast | unfold new_id; lia]. }
-  rewrite Hmaxid.
-  replace (u32_max <=? new_id) with false
-    by (symmetry; apply N.leb_gt; unfold u32_max, new_id, u32_mod in *; lia).
-  assert (Henc : dict_has (sr3 (norm_dict t6)) Loader.K_Encrypt = false).
-  { unfold dict_has. rewrite Hsr3, Hget. cbn [bytes_eqb orb]. change Loader.K_Encrypt with Save.K_Encrypt.
-    rewrite (dict_has_false_get _ _ (sv_no_encrypt d S)). reflexivity. }
-  rewrite Henc.
-  (* the objects, then the cross-reference stream itself *)
-  cbn [x_entries x_type].
-  assert (Hread : read_entries file (conv_map x1) [] =
-                  SOk (norm_objects objs ++ [((new_id, 0), OStream (norm_dict t6) content)])).
-  { unfold x1, conv_map. rewrite map_app. fold (conv_map x). rewrite read_entries_app.
+  exists x1.
+  change (dict_swap_remove (dict_swap_remove (dict_swap_remove (norm_dict t6) K_Length) Save.K_W) Save.K_Index)
+    with (sr3 (norm_dict t6)).
+  split; [|split; [exact Hmaxid|split; [exact Hx1n|split]]].
+  - (* the front *)
+    unfold load_front.
+    assert (Hoff : pdf_offset file = 0) by (rewrite E1; apply pdf_offset_header).
+    rewrite Hoff, from_0.
+    assert (Hhead : header file = Some v).
+    { rewrite E1. apply header_rt; [apply (se_version_eol d S) | apply (se_version_utf8 d S)]. }
+    rewrite Hhead.
+    assert (Hmark : read_binary_mark file = m).
+    { rewrite E1. apply binary_mark_rt; [apply (se_version_eol d S) | apply (se_mark d S)]. }
+    rewrite Hmark.
+    assert (Hstart : get_xref_start file = Some n).
+    { rewrite E2. apply get_xref_start_rt.
+      - rewrite Hn_len. unfold Loader.blen. rewrite app_length. lia.
+      - unfold Loader.blen. rewrite app_length. rewrite Hmid. pose proof (wio_stream_length new_id 0 t6 content). lia.
+      - unfold u32_mod in *. change (10 ^ 14) with 100000000000000. lia. }
+    rewrite Hstart.
+    (* the cross-reference stream *)
+    assert (Hidx : norm_obj (xstream_index secs) = xstream_index secs).
+    { destruct (ints_props _ (index_ints secs Hsecs)) as [_ [I2 _]]. exact I2. }
+    assert (Hxt : xref_and_trailer file n = SOk (stream_xref x1 (new_id + 1), sr3 (norm_dict t6))).
+    { unfold xref_and_trailer.
+      assert (Etab : xref_and_trailer_table (from n file) = XNoMatch).
+      { rewrite Hn_len. unfold file. rewrite from_app. rewrite Hmid, wio_eq. rewrite <- app_assoc.
+        unfold xref_and_trailer_table. rewrite xref_table_number. reflexivity. }
+      rewrite Etab, Hio.
+      replace (dict_has (norm_dict t6) K_Filter) with false
+        by (unfold dict_has; rewrite Hgn, Hget; reflexivity).
+      unfold content, secs.
+      rewrite (xref_stream_roundtrip x1 new_id (norm_dict t6) (Z.of_N (new_id + 1))); try assumption.
+      - reflexivity.
+      - change Xref.K_Size with Save.K_Size. rewrite Hgn, Hget. reflexivity.
+      - change Xref.K_W with Save.K_W. rewrite Hgn, Hget. reflexivity.
+      - change Xref.K_Index with Save.K_Index. fold secs.
+        transitivity (option_map norm_obj (Some (xstream_index secs))); [rewrite Hgn, Hget; reflexivity|].
+        cbn [option_map]. rewrite Hidx. reflexivity. }
+    rewrite Hxt.
+    (* Prev, size *)
+    assert (Hprev : dict_get (sr3 (norm_dict t6)) Xref.K_Prev = None).
+    { rewrite Hsr3, Hget. cbn [bytes_eqb orb]. change Xref.K_Prev with Save.K_Prev.
+      rewrite (dict_has_false_get _ _ (se_no_prev d S)). reflexivity. }
+    rewrite Hprev.
+    assert (Hsr : dict_swap_remove (sr3 (norm_dict t6)) Xref.K_Prev = sr3 (norm_dict t6)).
+    { unfold dict_swap_remove at 1, dict_has. rewrite Hprev. reflexivity. }
+    rewrite Hsr. cbn [prev_loop].
+    rewrite Hmaxid.
+    replace (u32_max <=? new_id) with false
+      by (symmetry; apply N.leb_gt; unfold u32_max, new_id, u32_mod in *; lia).
+    reflexivity.
+  - (* the objects, then the cross-reference stream itself *)
+    unfold x1, conv_map. rewrite map_app. fold (conv_map x). rewrite read_entries_app.
     assert (R1 : read_entries file (conv_map x) [] = SOk (norm_objects objs)).
     { rewrite E3. unfold x. rewrite (read_entries_objs objs HM _ [] 0); try assumption.
       - reflexivity.
@@ -664,11 +682,33 @@ Proof.
       - rewrite E3 in Hsm. exact Hsm. }
     rewrite R1. change (map conv_entry [(new_id, Save.XNormal n 0)]) with [(new_id, Xref.XNormal n 0)].
     rewrite (read_entries_cons file new_id n 0 [] (norm_objects objs) (new_id, 0) (OStream (norm_dict t6) content)).
-    - cbn [read_entries]. rewrite insert_last; [reflexivity|]. cbn [fst].
+    + cbn [read_entries]. rewrite insert_last; [reflexivity|]. cbn [fst].
       unfold norm_objects. apply Forall_forall. intros io' Hin. apply in_map_iff in Hin as [io [<- Hin]]. cbn [fst].
-      pose proof (sv_objects d S) as Ho. rewrite Forall_forall in Ho. destruct (Ho io Hin) as [H1 _]. eapply N.le_lt_trans; [exact H1 | unfold new_id; lia].
-    - apply N.ltb_ge. rewrite Hn_len. unfold file, Loader.blen. rewrite app_length. lia.
-    - exact Hio.
-    - intros d0 c0 E. inversion E; subst. unfold has_type. rewrite Hgn, Hget. reflexivity. }
-  rewrite Hread. reflexivity.
+      pose proof (se_objects d S) as Ho. rewrite Forall_forall in Ho. destruct (Ho io Hin) as [H1 _]. eapply N.le_lt_trans; [exact H1 | unfold new_id; lia].
+    + apply N.ltb_ge. rewrite Hn_len. unfold file, Loader.blen. rewrite app_length. lia.
+    + exact Hio.
+    + intros d0 c0 E. inversion E; subst. unfold has_type. rewrite Hgn, Hget. reflexivity.
+  - (* the trailer, key by key *)
+    intro k. rewrite Hsr3, Hget.
+    destruct (bytes_eqb k Xref.K_Index || bytes_eqb k Xref.K_W || bytes_eqb k K_Length) eqn:E3k; [reflexivity|].
+    apply orb_false_iff in E3k as [E3a E3c]. apply orb_false_iff in E3a as [E3a E3b].
+    change Xref.K_Index with Save.K_Index in E3a. change Xref.K_W with Save.K_W in E3b.
+    rewrite E3c, E3a, E3b.
+    destruct (bytes_eqb k K_Filter); [reflexivity|].
+    destruct (bytes_eqb k Save.K_Size); [reflexivity|].
+    destruct (bytes_eqb k K_Type); reflexivity.
+Qed.
+
+Theorem load_save_stream d :
+  savable_core d -> known_deep d = false -> small_file_core XStream d ->
+  load (so_bytes (save_core XStream d)) = LOk (reloaded_stream d) XTStream.
+Proof.
+  intros S K Hsmall.
+  destruct (front_save_stream d (core_enc d S) K Hsmall) as [x1 [Hf [Hm [_ [Hr Hk]]]]].
+  rewrite load_front_eq, Hf. unfold of_front, load_tail. cbn [f_trailer f_buf f_xref].
+  assert (Henc : dict_has (d_trailer (reloaded_stream d)) Loader.K_Encrypt = false).
+  { unfold dict_has. rewrite Hk. cbn [bytes_eqb orb]. change Loader.K_Encrypt with Save.K_Encrypt.
+    rewrite (dict_has_false_get _ _ (sv_no_encrypt d S)). reflexivity. }
+  rewrite Henc. change (x_entries (stream_xref x1 (d_max_id d + 1 + 1))) with (conv_map x1). rewrite Hr.
+  unfold doc_of. cbn [f_version f_mark f_trailer f_xref]. rewrite Hm. reflexivity.
 Qed.
